@@ -62,7 +62,18 @@ func sigString(f *ssa.Function) string {
 // when module-private identifiers are renamed: functions and methods outside
 // the module or exported, exported fields, and string constants.
 func funcMarks(f *ssa.Function) []string {
+	m, _ := funcMarksDeep(f, nil)
+	return m
+}
+
+// funcMarksDeep: the same, counting what the function does through private
+// functions for which fold holds (functions the reference tree does not
+// have: pieces of the body given a name) as done by the function itself.
+// Also returns those functions.
+func funcMarksDeep(f *ssa.Function, fold func(*ssa.Function) bool) ([]string, map[*ssa.Function]bool) {
 	set := map[string]bool{}
+	folded := map[*ssa.Function]bool{}
+	depth := 0
 	var visit func(g *ssa.Function)
 	visit = func(g *ssa.Function) {
 		for _, b := range g.Blocks {
@@ -74,6 +85,12 @@ func funcMarks(f *ssa.Function) []string {
 						}
 					} else if sc := c.StaticCallee(); nil != sc && nil == sc.Parent() {
 						inMod := nil != sc.Pkg && strings.HasPrefix(sc.Pkg.Pkg.Path(), ModPath)
+						if inMod && nil != fold && sc != f && !folded[sc] && depth < 3 && nil != sc.Blocks && fold(sc) {
+							folded[sc] = true
+							depth++
+							visit(sc)
+							depth--
+						}
 						if !inMod || ast.IsExported(sc.Name()) {
 							n := sc.String()
 							if k := strings.Index(n, "["); k > 0 {
@@ -117,7 +134,7 @@ func funcMarks(f *ssa.Function) []string {
 		out = append(out, m)
 	}
 	sort.Strings(out)
-	return out
+	return out, folded
 }
 
 func fieldOfStruct(t types.Type, idx int) *types.Var {
@@ -175,6 +192,20 @@ func (p *Prog) resolveRenames() {
 	candsOf := map[string]int{}
 	refsOf := map[*ssa.Function]int{}
 	marks := map[*ssa.Function][]string{}
+	foldedIn := map[*ssa.Function]map[*ssa.Function]bool{}
+	isNew := map[*ssa.Function]bool{}
+	for _, f := range newcomers {
+		if !ast.IsExported(f.Name()) {
+			isNew[f] = true
+		}
+	}
+	marksOf := func(f *ssa.Function) []string {
+		if m, ok := marks[f]; ok {
+			return m
+		}
+		marks[f], foldedIn[f] = funcMarksDeep(f, func(g *ssa.Function) bool { return isNew[g] })
+		return marks[f]
+	}
 	var missing []string
 	for name := range refInfo {
 		if !have[name] {
@@ -188,10 +219,7 @@ func (p *Prog) resolveRenames() {
 			if f.Pkg.Pkg.Path() != ri.Pkg || recvTypeName(f) != ri.Recv || sigString(f) != ri.Sig {
 				continue
 			}
-			if _, ok := marks[f]; !ok {
-				marks[f] = funcMarks(f)
-			}
-			pairs = append(pairs, pair{name, f, jaccard(ri.Marks, marks[f])})
+			pairs = append(pairs, pair{name, f, jaccard(ri.Marks, marksOf(f))})
 			candsOf[name]++
 			refsOf[f]++
 		}
@@ -236,13 +264,16 @@ func (p *Prog) resolveRenames() {
 			if taken[f] || f.Pkg.Pkg.Path() != ri.Pkg {
 				continue
 			}
-			if _, ok := marks[f]; !ok {
-				marks[f] = funcMarks(f)
+			if sc := jaccard(ri.Marks, marksOf(f)); sc > best {
+				best, bestF = sc, f
 			}
-			sc := jaccard(ri.Marks, marks[f])
-			if sc > best {
-				best, second, bestF = sc, best, f
-			} else if sc > second {
+		}
+		/* The runner-up is not a piece of the winner's own body. */
+		for _, f := range newcomers {
+			if taken[f] || f.Pkg.Pkg.Path() != ri.Pkg || f == bestF || (nil != bestF && foldedIn[bestF][f]) {
+				continue
+			}
+			if sc := jaccard(ri.Marks, marksOf(f)); sc > second {
 				second = sc
 			}
 		}
